@@ -194,14 +194,17 @@ def instantiate (T : Tables) (w : World) (name cls : Name) (cfg : List (Name × 
 
 /-! ## run-time mutation of one instance -/
 
-def setprop (T : Tables) (w : World) (inst par key : Name) (val : PVal) : World :=
+/-- `Parameter.setProperty(key, val)` of one instance (`path = []`: a parameter property is set on the Parameter
+object, anything else on its datatype object), or `setProperty` on a member datatype of its datatype found along
+`path` (what a driver does to narrow the element type of a tuple / limits / struct parameter at run time) -/
+def setprop (T : Tables) (w : World) (inst par : Name) (path : List Nat) (key : Name) (val : PVal) : World :=
   match aget? (w.accessiblesOf (.inst inst)) par with
   | some r => match w.heap.accAt r with
     | some a =>
-      if a.isCmd || T.isParamProp key then { w with heap := w.heap.set r (.acc { a with props := a.props.put key val }) }
+      if path.isEmpty && (a.isCmd || T.isParamProp key) then { w with heap := w.heap.set r (.acc { a with props := a.props.put key val }) }
       else match a.dtype with
         | some rd => match w.heap.dtAt rd with
-          | some t => { w with heap := w.heap.set rd (.dt (t.setProp T.dtOwn key val)) }
+          | some t => { w with heap := w.heap.set rd (.dt (DTree.setPropAt T.dtOwn path t key val)) }
           | none => w
         | none => w
     | none => w
@@ -230,20 +233,20 @@ def addEnum (w : World) (inst par member : Name) : World :=
 inductive Op where
   | define (d : ClassDecl)
   | inst (name cls : Name) (cfg : List (Name × PropMap))
-  | setprop (inst par key : Name) (val : PVal)
+  | setprop (inst par : Name) (path : List Nat) (key : Name) (val : PVal)
   | addEnum (inst par member : Name)
 deriving Inhabited
 
 def Op.target : Op → Owner
   | .define d => .cls d.name
   | .inst n _ _ => .inst n
-  | .setprop i _ _ _ => .inst i
+  | .setprop i _ _ _ _ => .inst i
   | .addEnum i _ _ => .inst i
 
 def step (T : Tables) (w : World) : Op → World
   | .define d => defineClass T w d
   | .inst n c cfg => instantiate T w n c cfg
-  | .setprop i p k v => setprop T w i p k v
+  | .setprop i p pa k v => setprop T w i p pa k v
   | .addEnum i p m => addEnum w i p m
 
 def run (T : Tables) (w : World) (ops : List Op) : World := ops.foldl (step T) w
